@@ -26,8 +26,8 @@ Arguments u_ref_unit {am}. Arguments u_scale {am}.
     Sub, Div<Self>) and the overridable HasRefUnit::_fit *)
 Record QFull (am : Amount) := mkQFull {
   qb :> QBase am;
-  q_eq : Qt qb -> Qt qb -> bool;
-  q_partial_cmp : Qt qb -> Qt qb -> option comparison;
+  q_eq : Qt qb -> Qt qb -> res bool;                       (* a conversion inside may panic (decimal) *)
+  q_partial_cmp : Qt qb -> Qt qb -> res (option comparison);
   q_add : Qt qb -> Qt qb -> res (Qt qb);
   q_sub : Qt qb -> Qt qb -> res (Qt qb);
   q_div : Qt qb -> Qt qb -> res am;
